@@ -108,6 +108,11 @@ func scriptedDial(d *ws.Dialer, url string, hdr http.Header, reply func(req []by
 	}
 	dd := *d
 	dd.NetDialContext = func(ctx context.Context, network, addr string) (net.Conn, error) { return nc, nil }
+	if strings.HasPrefix(url, "wss:") {
+		// the application does TLS itself (NetDialTLSContext); the scripted conn stands for the
+		// session it hands over. Dialer.TLSClientConfig stays whatever the caller set (often nil).
+		dd.NetDialTLSContext = dd.NetDialContext
+	}
 	c, resp, err := dd.Dial(url, hdr)
 	return c, resp, err, nc
 }
